@@ -30,7 +30,14 @@ BASE_KEYS = [3.0, 1.0, 3.0, 2.0, 1.0, 3.0, 2.0]
 BASE_VALS = [4.0, -1.0, 16.0, 2.0, -64.0, 8.0, 32.0]
 
 
-def _mk(n, what, container, index=None):
+def _mk(n, what, container, index=None, vkind="f8"):
+    if what in ("values", "values2") and vkind != "f8":
+        # temporal values: integers beyond 2**53 viewed as instants / durations
+        base = np.array(BASE_VALS[:n]).astype("i8") * (1 if what == "values" else 2)
+        a = (base + (1_600_000_000 * 10**9 if vkind == "dt" else 0)).view("M8[ns]" if vkind == "dt" else "m8[ns]")
+        if container == "series":
+            return pd.Series(a, index=index if index is not None else pd.RangeIndex(n))
+        return a
     if what == "keys":
         a = np.array(BASE_KEYS[:n])
     elif what == "codes":
@@ -102,6 +109,9 @@ def OPS():
     t["ema_timed"] = (("keys", "values", "times", "mask"),
                       lambda a: G(a).ema(a["values"], halflife="2s", times=a["times"], mask=a["mask"]))
     t["ema_gsorted"] = (("keys", "values"), lambda a: G(a).ema(a["values"], alpha=0.5, index_by_groups=True))
+    t["ema_timed_gsorted"] = (("keys", "values", "times", "mask"),
+                              lambda a: G(a).ema(a["values"], halflife="2s", times=a["times"], mask=a["mask"],
+                                                 index_by_groups=True))
     for name, arg in (("head", 1), ("tail", 2), ("nth", 0)):
         t[name] = (("keys", "values"), lambda a, f=name, k=arg: getattr(G(a), f)(a["values"], k))
         t[name + "_keepindex"] = (("keys", "values"),
@@ -173,6 +183,20 @@ class AlignSpace(Subspace):
                             cells.append((name, arg, n, "series", "index", kind))
                             # only the keys and this argument are pandas objects, the rest NumPy
                             cells.append((name, arg, n, "pair", "index", kind))
+        cells = [c + ("f8",) for c in cells]
+        # the same table with temporal values (operations that do not take them drop out at the
+        # aligned control)
+        for vk in ("dt", "td"):
+            for name, (args, _) in ops.items():
+                if "values" not in args:
+                    continue
+                for arg in args:
+                    for delta in (-1, 1):
+                        cells.append((name, arg, 4, "series", "len", delta, vk))
+                    if arg != "codes":
+                        for kind in INDEX_PERTURB:
+                            cells.append((name, arg, 4, "series", "index", kind, vk))
+                            cells.append((name, arg, 4, "pair", "index", kind, vk))
         self._cells = cells
 
     def size(self):
@@ -181,8 +205,8 @@ class AlignSpace(Subspace):
 
     def case(self, i):
         self._build()
-        name, arg, n, cont, ptype, p = self._cells[i]
-        return dict(op=name, arg=arg, n=n, container=cont, ptype=ptype, p=p)
+        name, arg, n, cont, ptype, p, vk = self._cells[i]
+        return dict(op=name, arg=arg, n=n, container=cont, ptype=ptype, p=p, vkind=vk)
 
     def run(self, case):
         res = Result()
@@ -190,6 +214,7 @@ class AlignSpace(Subspace):
         ops = OPS()
         args, fn = ops[case["op"]]
         n, cont = case["n"], case["container"]
+        vkind = case.get("vkind", "f8")
         seams = env.seams()
         seams.set(executor=sched.NAMESPACE)
         sched.set_schedule(sched.Schedule())
@@ -199,9 +224,9 @@ class AlignSpace(Subspace):
             for k in args:
                 if cont == "pair":
                     first = args[0]
-                    a[k] = _mk(n, k, "series" if k in (first, case["arg"]) else "ndarray")
+                    a[k] = _mk(n, k, "series" if k in (first, case["arg"]) else "ndarray", vkind=vkind)
                 else:
-                    a[k] = _mk(n, k, cont)
+                    a[k] = _mk(n, k, cont, vkind=vkind)
             return a
 
         def attempt(a):
@@ -215,9 +240,12 @@ class AlignSpace(Subspace):
         # aligned control
         res.execs += 1
         err = attempt(build())
-        tag = f"{case['op']}({', '.join(args)}) n={n} {cont}"
+        tag = f"{case['op']}({', '.join(args)}) n={n} {cont}" + ("" if vkind == "f8" else f" {vkind} values")
         if err is not None:
-            res.fail("aligned-rejected", f"{tag}: aligned inputs raised {err}")
+            if vkind == "f8":
+                res.fail("aligned-rejected", f"{tag}: aligned inputs raised {err}")
+            else:
+                res.nontrivial = False    # the operation is not defined for temporal values
             seams.reset()
             return res
         a = build()
